@@ -116,6 +116,70 @@ def ev(ast, d):
     raise KeyError(k)
 
 
+def evs(ast, d):
+    """Set-valued reference: every value the sentence of C17 admits for (expression, date).  The statement leaves three
+    things open -- a leaf calendar outside its validity yields "none/zero", a negative difference means "no capacity"
+    (None or 0), and `|` without a positive operand -- so each of them contributes both readings.  Raises Undefined when
+    some admissible reading divides by a calendar that is 0 on that date."""
+    k = ast[0]
+    if k == 'never':
+        return {0, None}
+    if k in ('weekly', 'weeklyd'):
+        a = ast[1]
+        if (a.get('start') is not None and d < a['start']) or (a.get('end') is not None and d > a['end']):
+            return {None, 0}
+        return {ev(ast, d)}
+    if k == 'direct':
+        v = ev(ast, d)
+        return {None, 0} if v is None else {v}
+    if k == 'fixed':
+        if (ast[2] is not None and d < ast[2]) or (ast[3] is not None and d > ast[3]):
+            return {None, 0}
+        return {ast[1]}
+    if k == 'num':
+        return {ast[1]}
+    A, B = evs(ast[1], d), evs(ast[2], d)
+    out = set()
+    for a in A:
+        for b in B:
+            if k == 'or':
+                if a is not None and a > 0:
+                    out.add(a)
+                elif b is not None and b > 0:
+                    out.add(b)
+                else:
+                    out.update({None, 0})
+                continue
+            if a is None and b is None:
+                out.add(None)
+                continue
+            if k == 'sub':
+                r = b if a is None else a if b is None else a - b
+                if r < 0:
+                    out.update({None, 0})
+                else:
+                    out.add(r)
+                continue
+            if a is None:
+                out.add(b)
+            elif b is None:
+                out.add(a)
+            elif k == 'add':
+                out.add(a + b)
+            elif k == 'mul':
+                out.add(a * b)
+            elif k == 'div':
+                if b == 0:
+                    raise Undefined()
+                out.add(a / b)
+    return out
+
+
+def caps(ast, d):
+    """admissible resource-level capacities (None -> 0)"""
+    return {0 if v is None else v for v in evs(ast, d)}
+
+
 def cap(ast, d):
     """resource-level capacity: 0 where the calendar has no information; default calendar when ast is None"""
     if ast is None:
